@@ -1,11 +1,42 @@
 """Generic functional check of instruction families: every encoding row of the family, every listed
 architecture version, through the H-step harness."""
 from spec.isa import ISA
-from vf import step
+from vf import step, known
 from vf.runner import UnitSpec
 
 
 PER_ROW = {}  # row name -> extra mk_step options
+WHOLE_ROW_KNOWN = {'EnterxLeavexT1': 'F041'}  # rows whose open known-finding region is the whole row
+
+
+# case splits: a row whose exploration is a long pole is run as several units, one per value of the named fields
+# (the union of the cases is the whole row -- nothing is dropped, the cases run in parallel)
+SPLIT = {
+    'StrRegisterA1': [('type', 4), ('U', 2)], 'LdrRegisterArmA1': [('type', 4), ('U', 2)],
+    'StrbRegisterA1': [('type', 4)], 'LdrbRegisterA1': [('type', 4)],
+    'LdrImmediateThumbT4': [('U', 2), ('W', 2)], 'LdrdImmediateT1': [('U', 2), ('W', 2)],
+    'StrdImmediateT1': [('U', 2), ('W', 2)],
+    'SubsPcLrArmA1': [('opcode', 16)], 'MsrRegisterSystemT1': [('mask', 16)], 'CpsThumbT2': [('imod', 4), ('M', 2)],
+    'CpsArmA1': [('imod', 4), ('M', 2)],
+}
+
+
+def split_cases(name, kw):
+    """[(suffix, kw)] for the case split of row `name` (one entry with an empty suffix when the row is not split)"""
+    cases = [('', kw)]
+    fixed = kw.get('fix') or {}
+    have = {n for k, n, w, v in ISA[name].items if k == 'f'}
+    for field, n in SPLIT.get(name, []):
+        if field in fixed or field not in have:
+            continue
+        nxt = []
+        for suf, k in cases:
+            for v in range(n):
+                k2 = dict(k)
+                k2['fix'] = dict(k.get('fix') or {}, **{field: v})
+                nxt.append(('%s/%s=%d' % (suf, field, v), k2))
+        cases = nxt
+    return cases
 
 
 def family_units(families, archs, tables, only=None, sec=True, virt=False, tag='', **stepkw):
@@ -25,6 +56,14 @@ def family_units(families, archs, tables, only=None, sec=True, virt=False, tag='
             kw.update(stepkw)
             if name in PER_ROW:
                 kw.update(PER_ROW[name])
-            us.append(UnitSpec('step/%s/v%d%s' % (name, arch, tag), 'vf.step', 'mk_step', kw, max_seconds=900,
-                               weight=2.0 if 'RegisterA1' in name or 'T2' in name else 1.0))
+            for suf, kwc in split_cases(name, kw):
+                u = UnitSpec('step/%s/v%d%s%s' % (name, arch, tag, suf), 'vf.step', 'mk_step', kwc, max_seconds=900,
+                             weight=2.0 if 'RegisterA1' in name or 'T2' in name else 1.0)
+                if suf:
+                    u.allow_vacuous = True  # a case may be empty (excluded by the row's guard)
+                if name in WHOLE_ROW_KNOWN and WHOLE_ROW_KNOWN[name] in known.open_ids():
+                    # the open known finding covers every input of this row on the configurations used: nothing is
+                    # left to explore (the finding's committed witness is replayed by the runner instead)
+                    u.allow_vacuous = True
+                us.append(u)
     return us
